@@ -1,5 +1,5 @@
 (* Entry points of the executable model used by the correspondence check (extracted). *)
-From RP Require Import Base Stream Target Socks Http Frames Frag MiluSyntax MiluParser MiluDoc MiluEval Dispatch.
+From RP Require Import Base Stream Target Socks Http Frames Frag MiluSyntax MiluParser MiluDoc MiluEval Dispatch MiluSound MiluWf.
 From RP.Gen Require Gen_ladder.
 
 Definition HFUEL : nat := 4000.   (* header lines per HTTP head in generated cases are far fewer *)
@@ -42,3 +42,5 @@ Definition x_cidr_contains := cidr_contains.
 Definition x_cidr_net_ok := cidr_net_ok.
 
 Definition x_dispatch regex cidr := dispatch x_milu_parse regex cidr 4000.
+
+Definition x_wf_lfb := wf_lfb.
